@@ -72,7 +72,8 @@ def gen_framing(rng):
                        "errline-named", "wrong-name", "raise-write", "raise-read", "raise-read-late", "bare-name",
                        "prefix-of-longer-name"])
     lead = rng.choice(["", "", " ", "\t"])
-    payload_forms = [name, name + "," + nonce, name + "," + nonce + ",7", name + nonce]
+    payload_forms = [name, name + "," + nonce, name + "," + nonce + ",7", name + nonce,
+                     name + ",," + nonce, name + ",", name + ",,", name + ",," + nonce + ",,"]
     reply = lead + rng.choice(payload_forms) + reply_eol(rng)
     faults = []
     if kind == "ok-delayed":
